@@ -226,7 +226,7 @@ class Attribute(_BaseAttribute):
                 data_attr_type = Attribute.Type(datatype)
                 if not self._can_be_casted(data_attr_type, self.type):
                     raise Attribute.TypeNotMatchingError(data, datatype, self.type)
-            self._data[key] = Vec(data)
+            self._data[key] = Vec(np.array(data, dtype=self.type.dtype)) # the attribute's dtype, as the dense storage (np.asarray infers a narrower one)
         
         else:
             datatype = type(value)
